@@ -22,7 +22,7 @@ async fn open_epoch(s: &mut Sim, g: &mut G) -> u64 {
 }
 
 async fn run(mut s: Sim, mut rng: Rng, _len: usize) -> Sim {
-    let which = ((s.n >> 32) - 1) % 15;   // history id: consecutive histories run the scripts in turn
+    let which = ((s.n >> 32) - 1) % 16;   // history id: consecutive histories run the scripts in turn
     if (7..12).contains(&which) { return unconfigured(s, rng, which).await; }
     let mut g = bootstrap_with(&mut s, &mut rng, None).await;
     // make the configuration deterministic where the scripts depend on it
@@ -224,6 +224,44 @@ async fn run(mut s: Sim, mut rng: Rng, _len: usize) -> Sim {
                 let l: Vec<(K, u16)> = rec.iter().enumerate().map(|(j, x)| (K::User(320 + j as u64), *x)).collect();
                 let ix = s.rd_configure_contributor_recipients(&mgr, &svc, &l); s.op(tx(vec![ix])).await;
             }
+        }
+        15 => { // C11 / C12 / C04 / C16: a rewards root with one leaf more than the declared number of contributors (the surplus leaf can
+                // never be distributed, so no relay fee beyond the prepaid ones is ever paid); rewards figures re-posted after their
+                // finalisation (refused, also with the null root); the block flag set twice in a row stays set
+            let ja = K::Ata(b(&K::RdJournal), b(&K::Mint));
+            s.op(Op::MintTo(ja.clone(), 1_000_003)).await;
+            let e = open_epoch(&mut s, &mut g).await;
+            let t = s.def_tree(0, vec![]);
+            let ix = s.rd_configure_debt(&g.debt_acc, e, 0, 0, t.root); s.op(tx(vec![ix])).await;
+            let ix = s.rd_finalize_debt(&g.debt_acc, e, &g.payer); s.op(tx(vec![ix])).await;
+            let v = g.svcs[0].clone();
+            let rl: Vec<Leaf> = (0..4).map(|_| Leaf::Reward { contributor: v.clone(), unit_share: 250_000_000, packed: 0 }).collect();
+            let rt = s.def_tree(1, rl.clone());
+            let ix = s.rd_configure_rewards(&g.rew_acc, e, 3, rt.root); s.op(tx(vec![ix])).await;
+            let _ = open_epoch(&mut s, &mut g).await;
+            let ix = s.rd_finalize_rewards(&g.payer, e); s.op(tx(vec![ix])).await;
+            // after finalisation the figures are frozen: more contributors, another root, the null root with none
+            let rt2 = s.def_tree(1, vec![Leaf::Reward { contributor: g.svcs[1].clone(), unit_share: 1_000_000_000, packed: 0 }]);
+            let ix = s.rd_configure_rewards(&g.rew_acc, e, 8, rt.root); s.op(tx(vec![ix])).await;
+            let ix = s.rd_configure_rewards(&g.rew_acc, e, 1, rt2.root); s.op(tx(vec![ix])).await;
+            let nt = s.def_tree(1, vec![]);
+            let ix = s.rd_configure_rewards(&g.rew_acc, e, 0, nt.root); s.op(tx(vec![ix])).await;
+            let ix = s.rd_sweep(e, &K::SwapMock, &g.fills); s.op(tx(vec![ix])).await;
+            let ix = s.rd_configure_rewards(&g.rew_acc, e, 8, rt.root); s.op(tx(vec![ix])).await;
+            let recs: Vec<K> = g.recips[0].iter().map(|x| x.0.clone()).collect();
+            for (r, _) in g.recips[0].clone() { s.reg_ata(&r); s.op(Op::CreateAta { payer: g.payer.clone(), owner: r }).await; }
+            s.op(Op::Airdrop(K::RdDist(e), 1_000_000)).await;      // a lamport surplus, so that only the program's own count stops the fourth payout
+            for idx in [0u32, 1, 2, 3, 3] {
+                let p = s.proof(&rt, idx).unwrap();
+                let ix = s.rd_distribute(e, &v, &g.relayer, &recs, 250_000_000, 0, &p); s.op(tx(vec![ix])).await;
+            }
+            // block, block again (a retry), then the contributor manager tries to replace the rewards manager: still refused
+            let (v2, m2) = (g.svcs[2].clone(), g.users[9].clone());
+            let ix = s.rd_set_rewards_manager(&g.cmgr, &v2, &m2); s.op(tx(vec![ix])).await;
+            for _ in 0..2 { let ix = s.rd_configure_contributor_block(&m2, &v2, true); s.op(tx(vec![ix])).await; }
+            let ix = s.rd_set_rewards_manager(&g.cmgr, &v2, &g.users[10].clone()); s.op(tx(vec![ix])).await;
+            for _ in 0..2 { let ix = s.rd_configure_contributor_block(&m2, &v2, false); s.op(tx(vec![ix])).await; }
+            let ix = s.rd_set_rewards_manager(&g.cmgr, &v2, &g.users[10].clone()); s.op(tx(vec![ix])).await;
         }
         14 => { // C08: every instruction of an epoch's pipeline (and the contributor settings), each first attempted while the program is
                 // paused (refused, nothing changes), then again after the admin has cleared the flag (behaves as if never paused)
